@@ -79,12 +79,14 @@ def from_generator(draw):
                 tb=draw(boards.PROBS), rb=draw(boards.PROBS), lb=draw(boards.PROBS))
 
 
-def wide_tall():
+def wide_tall(tier="quick"):
     """Shapes around typical tuning knobs (8, 12, 16, 32, 64 per row / column), from the random generator."""
     shapes = [(1, 9), (9, 1), (1, 13), (13, 1), (2, 17), (17, 2), (1, 33), (33, 1), (1, 65), (65, 1), (9, 9), (3, 12),
               (12, 3), (11, 7),
               # more than 86 / 128 / 256 tiles: group offsets leave the small-integer range of the interpreter
               (9, 10), (10, 10), (12, 8), (1, 100), (100, 1), (2, 130), (16, 16), (3, 90), (20, 20)]
+    if tier != "quick":
+        shapes.append((82, 80))        # 6560 tiles: game C has more than 65 536 states (35 s per board)
     for k, (length, width) in enumerate(shapes):
         for fd in (False, True):
             yield dict(gen=[100 + k, length, width, 0.3, 6, fd], tb=0.1, rb=0.2, lb=0.3)
@@ -93,11 +95,11 @@ def wide_tall():
 def phases(tier):
     if tier == "quick":
         return [Phase("boards<=3-tiles", enum=core(3), exhaustive=True, note="all boards with at most 3 tiles"),
-                Phase("wide-and-tall-boards", enum=wide_tall),
+                Phase("wide-and-tall-boards", enum=lambda: wide_tall("quick")),
                 Phase("sampled-boards", strategy=lambda: sampled(5), examples=(260, 0)),
                 Phase("generator-boards", strategy=from_generator, examples=(60, 0))]
     return [Phase("boards<=4-tiles", enum=core(4), exhaustive=True, note="all 13 448 boards with at most 4 tiles"),
-            Phase("wide-and-tall-boards", enum=wide_tall),
+            Phase("wide-and-tall-boards", enum=lambda: wide_tall("thorough")),
             Phase("sampled-boards", strategy=lambda: sampled(6), examples=(0, 5000)),
             Phase("generator-boards", strategy=from_generator, examples=(0, 1500))]
 
@@ -130,7 +132,7 @@ def check_case(board):
     moves = board["moves"]
     L, W = len(moves), len(moves[0])
     v.nontrivial = True
-    v.cls(f"tiles<={min(36, 4 if L * W <= 4 else 9 if L * W <= 9 else 36)}")
+    v.cls(f"tiles<={4 if L * W <= 4 else 9 if L * W <= 9 else 36 if L * W <= 36 else 400 if L * W <= 400 else 10000}")
     if W == 1:
         v.cls("one_column")
     if L == 1:
